@@ -400,10 +400,10 @@ func TestVerifC30System(t *testing.T) {
 	verifkit.Check(t, verifkit.Spec[verifc30.Case]{
 		ID: "C30", Engine: "system",
 		Gen: func(t *rapid.T) verifc30.Case {
-			return verifc30.GenRequests(t, verifkit.Size(10, 14))
+			return verifc30.GenRequests(t, verifkit.Size(16, 22))
 		},
 		Run:             c30RunSystem,
-		Floors:          map[string]float64{"multi-access": 0.2, "prefix-map": 0.15, "reject-after-accept": 0.2, "typed": 0.2, "ryw-checked": 0.15},
+		Floors:          map[string]float64{"multi-access": 0.2, "prefix-map": 0.08, "reject-after-accept": 0.2, "typed": 0.2, "ryw-checked": 0.15},
 		NonTrivialFloor: 0.5,
 	})
 }
